@@ -10,6 +10,10 @@ verus! {
 pub broadcast axiom fn axiom_string_ext(a: String, b: String)
     ensures #[trigger] a@ == #[trigger] b@ ==> a == b;
 
+// String's Ord is a lawful total order (lexicographic on bytes), so it meets vstd's BTreeMap key model.
+pub broadcast axiom fn axiom_string_key_obeys_cmp_spec()
+    ensures #[trigger] vstd::std_specs::btree::key_obeys_cmp_spec::<String>();
+
 pub open spec fn str_key_in<V>(m: Map<String, V>, n: Seq<char>) -> bool {
     exists|k: String| #[trigger] m.contains_key(k) && k@ == n
 }
@@ -19,8 +23,8 @@ pub open spec fn str_key_of<V>(m: Map<String, V>, n: Seq<char>) -> String {
 }
 
 /// view of a String-keyed map as a map from character sequences
-pub open spec fn by_name<V>(m: Map<String, V>) -> Map<Seq<char>, V> {
-    Map::new(|n: Seq<char>| str_key_in(m, n), |n: Seq<char>| m[str_key_of(m, n)])
+pub open spec fn by_name<V>(m: Map<String, V>) -> IMap<Seq<char>, V> {
+    IMap::new(|n: Seq<char>| str_key_in(m, n), |n: Seq<char>| m[str_key_of(m, n)])
 }
 
 pub proof fn lemma_by_name_insert<V>(m: Map<String, V>, k: String, v: V)
